@@ -199,6 +199,7 @@ class FilReader(Filterbank):
             data = np.frombuffer(read_buffer, dtype=self.bitsinfo.dtype)
 
         self._file.seek(start * self.samp_stride)
+        ends_at_eof = start + nsamps == self.header.nsamples
         nreads, lastread = divmod(nsamps, (gulp - skipback))
         if lastread < skipback:
             nreads -= 1
@@ -215,8 +216,14 @@ class FilReader(Filterbank):
                 f"read_plan: Reading block {ii}/{nreads}, {block} elements, "
                 f"with skipback={skip}",
             )
-            nbytes = self._file.creadinto(read_buffer, unpack_buffer)
             expected_nbytes = int(block * self.chan_stride)
+            nbytes = self._file.creadinto(
+                memoryview(read_buffer)[:expected_nbytes],
+                None if unpack_buffer is None else memoryview(unpack_buffer)[:block],
+            )
+            if ends_at_eof and ii == len(blocks) - 1 and not self._file.eos():
+                msg = "File has trailing bytes after the last complete sample"
+                raise ValueError(msg)
             if nbytes != expected_nbytes:
                 msg = (
                     f"Unexpected number of bytes read from file {nbytes} (actual) "
